@@ -244,7 +244,7 @@ func ruleImportIDMap(c *eng.Ctx) {
 		}
 		be := struct{ p token.Pos }{pos}
 		for _, side := range sides {
-			ix, ok := ast.Unparen(side).(*ast.IndexExpr)
+			ix, ok := ast.Unparen(resolveLocalExpr(info, fi.Decl.Body, side)).(*ast.IndexExpr)
 			if !ok {
 				continue
 			}
